@@ -23,8 +23,9 @@ type BatchOp struct {
 type BatchInfo struct {
 	Seq     int64
 	Ops     []BatchOp
-	Applied bool  // the inner commit was attempted and returned nil
-	Inner   error // what the engine answered (nil if not attempted)
+	Applied bool   // the inner commit was attempted and returned nil
+	Inner   error  // what the engine answered (nil if not attempted)
+	Tag     string // free for the fault layer (set in Decide, read in AfterCommit)
 }
 
 // Decision is what the fault layer does with a batch.
@@ -73,6 +74,9 @@ type Wrap struct {
 	AfterDel   func(kind string, key []byte, err error)
 	Partitions func(start, end []byte) ([]storage.Partition, bool)
 	NoTTL      bool
+	// IterFault, if set, is asked before every Next of every iterator (n = number of Next calls made on that
+	// iterator so far); a non-nil error is returned to the caller instead of advancing.
+	IterFault func(start, end []byte, n int) error
 
 	seq int64
 }
@@ -115,8 +119,43 @@ func (w *Wrap) Del(ctx context.Context, key []byte) (err error) {
 	return err
 }
 
+// Iter implements storage.KvStorage (iterators are wrapped only when iterator faults are configured)
+func (w *Wrap) Iter(ctx context.Context, start []byte, end []byte, timestamp uint64, limit uint64) (storage.Iter, error) {
+	it, err := w.KvStorage.Iter(ctx, start, end, timestamp, limit)
+	if err != nil || w.IterFault == nil {
+		return it, err
+	}
+	return &wrapIter{Iter: it, w: w, start: cp(start), end: cp(end)}, nil
+}
+
+type wrapIter struct {
+	storage.Iter
+	w          *Wrap
+	start, end []byte
+	n          int
+}
+
+func (i *wrapIter) Next(ctx context.Context) error {
+	if f := i.w.IterFault; f != nil {
+		if err := f(i.start, i.end, i.n); err != nil {
+			i.n++
+			return err
+		}
+	}
+	i.n++
+	return i.Iter.Next(ctx)
+}
+
+func unwrapIter(it storage.Iter) storage.Iter {
+	if wi, ok := it.(*wrapIter); ok {
+		return wi.Iter
+	}
+	return it
+}
+
 // DelCurrent implements storage.KvStorage
 func (w *Wrap) DelCurrent(ctx context.Context, it storage.Iter) (err error) {
+	it = unwrapIter(it)
 	key := append([]byte(nil), it.Key()...)
 	if w.DelFault != nil {
 		if err = w.DelFault("delcur", key); err != nil {
@@ -164,6 +203,7 @@ func (b *wrapBatch) Del(key []byte) {
 	b.ops = append(b.ops, BatchOp{Kind: "del", Key: cp(key)})
 }
 func (b *wrapBatch) DelCurrent(it storage.Iter) {
+	it = unwrapIter(it)
 	b.ops = append(b.ops, BatchOp{Kind: "delcur", Key: cp(it.Key()), Iter: it})
 }
 
